@@ -1018,6 +1018,15 @@ def main(argv):
         return cmd_list(rest)
     if cmd == "replay":
         return cmd_replay(rest)
+    if cmd == "regress":
+        # replay every pre-fix counterexample kept under /verif/regressions against the current tree
+        worst = 0
+        for f in sorted(glob.glob(os.path.join(VERIF, "regressions", "*.json"))):
+            rc = cmd_replay([f])
+            worst = max(worst, rc if rc in (1, 2) else 0) if worst != 1 else 1
+            if rc == 1:
+                worst = 1
+        return worst
     if cmd == "selftest":
         import selftest
         return selftest.main(rest)
